@@ -85,7 +85,16 @@ def _enum_cases(ctx):
         ctx.evaluations += len(ma) * len(mb)
         ctx.nontrivial_keys.add(f"enum{ra}{rb}{c}:{n_eq}")
         ctx.extra.setdefault("enumerated_shapes", []).append({"A": [ra, c], "B": [rb, c], "values": VALS, "pairs": len(ma) * len(mb), "equal": n_eq})
-    results = vlib.coq_eval_many("c16e", texts, timeout=1500, par=min(8, len(texts)))
+    if ctx.thorough:
+        results = vlib.coq_eval_many("c16e", texts, timeout=1500, par=min(8, len(texts)))
+    else:   # one file: the Require is paid once
+        hdr = "From Snax Require Import Base.Prelude Model.C16Enum.\n"
+        ok, out = vlib.coq_eval("c16e", hdr + "".join(t.replace(hdr, "") for t in texts), timeout=900)
+        lists = vlib.parse_all_eval_lists(out)
+        if ok and len(lists) == len(texts):
+            results = [(True, "= " + ("[" + "; ".join(map(str, l)) + "]") + " : list nat") for l in lists]
+        else:
+            results = [(False, out)] * len(texts)
     for (ra, rb, c, ma, mb, bits), (ok, out) in zip(info, results):
         bad = vlib.parse_eval_list(out)
         if not ok or bad is None:
@@ -197,7 +206,7 @@ def correspondence(ctx):
     c2, m2, t2 = _match_cases(ctx, ctx.n(150, 3000))
     cases.update(c2), meta.update(m2), tests.update(t2)
     dis += _run_cases("c16", "From Snax Require Import Base.Prelude Model.C03Schedule Model.C16Matcher.", cases, meta, tests,
-                      chunk=130, nfiles=ctx.n(8, 12))
+                      chunk=200, nfiles=ctx.n(3, 12))
     return dis
 
 
